@@ -383,6 +383,23 @@ class DaskMixinsInheritCore(Contract):
             res.append(Result('%s/%s_is_core_%s' % (self.name, name, name), self.props, 'proved' if good else 'failed',
                               'syntactic', time.time() - t0, path='ast', contract=self,
                               detail='' if good else 'class %s of dask.py is not `class %s(DaskStream, core.%s): pass`' % (name, name, name)))
+        # gather() ends the Dask part: it is a core Stream, so that nodes attached behind it resolve to the core classes (a
+        # DaskStream would hand .map / .starmap / .accumulate to the Dask variants again, which expect futures); scatter() starts it
+        g, sc = classes.get('gather'), classes.get('scatter')
+        g_ok = g is not None and [ast.unparse(b) for b in g.bases] == ['core.Stream']
+        res.append(Result(self.name + '/gather_is_a_core_stream_the_pipeline_is_local_again_behind_it', self.props,
+                          'proved' if g_ok else 'failed', 'syntactic', time.time() - t0, path='ast', contract=self,
+                          detail='' if g_ok else 'class gather of dask.py does not derive from core.Stream alone'))
+        s_ok = sc is not None and [ast.unparse(b) for b in sc.bases] == ['DaskStream']
+        res.append(Result(self.name + '/scatter_is_a_DaskStream', self.props, 'proved' if s_ok else 'failed', 'syntactic',
+                          time.time() - t0, path='ast', contract=self,
+                          detail='' if s_ok else 'class scatter of dask.py does not derive from DaskStream'))
+        for name in ('map', 'starmap', 'accumulate'):
+            c = classes.get(name)
+            good = c is not None and [ast.unparse(b) for b in c.bases] == ['DaskStream']
+            res.append(Result('%s/dask_%s_is_a_DaskStream' % (self.name, name), self.props, 'proved' if good else 'failed', 'syntactic',
+                              time.time() - t0, path='ast', contract=self,
+                              detail='' if good else 'class %s of dask.py does not derive from DaskStream' % name))
         self.outcomes = []
         return res, {'paths': 0, 'seconds': 0, 'branch_checks': 0, 'outcomes': [], 'dropped': [], 'cover': []}
 
